@@ -73,6 +73,30 @@ def build(scratch: Path):
     return d
 
 
+def build_twin(scratch: Path):
+    """a second definition file with the same struct and message names as the fixture but other fields (every
+    definition gets a new first field) and other ids, as two rigs of one lab would have"""
+    import re
+    d = Path(scratch) / "fielddefs"
+    d.mkdir(parents=True, exist_ok=True)
+    text, _ = yaml_text()
+    text = text.replace("    fields:\n", "    fields:\n      zz_first: double\n")
+    text = re.sub(r"    id: (\d+)", lambda m: f"    id: {int(m.group(1)) + 700}", text)
+    (d / "vf_fields_twin.yaml").write_text(text)
+    r = subprocess.run([sys.executable, "-m", "pyrtma.compile", "-i", str(d / "vf_fields_twin.yaml"), "-o", str(d), "--py"],
+                       stdin=subprocess.DEVNULL, capture_output=True, text=True, env=dict(os.environ), timeout=120)
+    if r.returncode != 0 or not (d / "vf_fields_twin.py").exists():
+        raise RuntimeError(f"compiling the twin fixture failed rc={r.returncode}: {r.stdout[-800:]} {r.stderr[-800:]}")
+    return d
+
+
+def load_twin(scratch=None):
+    d = Path(scratch or os.environ["VF_SCRATCH"]) / "fielddefs"
+    if str(d) not in sys.path:
+        sys.path.insert(0, str(d))
+    return importlib.import_module("vf_fields_twin")
+
+
 def load(scratch=None):
     d = Path(scratch or os.environ["VF_SCRATCH"]) / "fielddefs"
     if str(d) not in sys.path:
